@@ -663,11 +663,56 @@ Lemma script_redo_acts :
   = [AAttest 5 1 254 vx1; AAttest 5 1 254 vx2].
 Proof. vm_compute. reflexivity. Qed.
 
+(* the premises as a boolean (reflection: concrete scripts are checked by computation) *)
+Definition pre_b (f : nat) (pl : player) (e : pevent) : bool :=
+  (p_rnd pl + N.of_nat f + 1 <? W64) &&
+  match e with
+  | PTimeout false _ _ => p_step pl + 1 <? W64
+  | PRoundInt r => (p_rnd pl <? r) && (r + N.of_nat f + 1 <? W64)
+  | _ => true
+  end.
+Definition payload_ok_b (pl : player) (m : mevent) : bool :=
+  match me_in m with
+  | InPayload pv => negb (me_verified m) || mm_err (me_meta m) || mm_cancelled (me_meta m) || (v_rnd pv =? p_rnd pl)
+  | _ => true
+  end.
+Definition ev_ok2_b (st : state) (e : ext_event) : bool :=
+  match e with EvMsg m => payload_ok_b (s_pl st) m | _ => true end &&
+  pre_b default_fuel (s_pl st) (pevent_of e) &&
+  forallb (fun x => vt_per x + 1 <? W64) (ev_delivered e).
+Fixpoint trace_ok2_b (pm : params) (st : state) (es : list ext_event) : bool :=
+  match es with
+  | [] => true
+  | e :: es' =>
+      ev_ok2_b st e &&
+      match step pm st e with Ok (st', _) => trace_ok2_b pm st' es' | _ => true end
+  end.
+
+Lemma ev_ok2_b_sound st e : ev_ok2_b st e = true -> ev_ok2 st e.
+Proof.
+  unfold ev_ok2_b, ev_ok2. rewrite !andb_true_iff. intros [[H1 H2] H3]. split; [|split].
+  - destruct e as [m| | |]; cbn; auto. unfold payload_ok, payload_ok_b in *.
+    destruct (me_in m) as [x|b|pv]; auto. intros V E C. rewrite V, E, C in H1. cbn in H1.
+    apply N.eqb_eq in H1. exact H1.
+  - unfold pre, pre_b in *. apply andb_true_iff in H2. destruct H2 as [H2 H4]. split; [apply N.ltb_lt; exact H2|].
+    destruct (pevent_of e) as [m|th|[|] en bad|r|r p s err]; auto.
+    + apply N.ltb_lt. exact H4.
+    + apply andb_true_iff in H4. destruct H4 as [H4 H5]. split; apply N.ltb_lt; assumption.
+  - intros x Hx. rewrite forallb_forall in H3. apply N.ltb_lt. apply H3. exact Hx.
+Qed.
+
+Lemma trace_ok2_b_sound pm : forall es st, trace_ok2_b pm st es = true -> trace_ok2 pm st es.
+Proof.
+  induction es as [|e es IH]; intros st H; cbn [trace_ok2 trace_ok2_b] in *; [exact Logic.I|].
+  apply andb_true_iff in H. destruct H as [H1 H2]. split; [apply ev_ok2_b_sound; exact H1|].
+  destruct (step pm st e) as [[st' acts]| |]; auto.
+Qed.
+
 Lemma script_soft_next_ok : trace_ok2 pmx (init pmx 5) script_soft_next.
-Proof. vm_compute. repeat split; try discriminate; try (intros x H; repeat (destruct H as [<-|H]; [reflexivity|]); destruct H). Qed.
+Proof. apply trace_ok2_b_sound. vm_compute. reflexivity. Qed.
 
 Lemma script_redo_ok : trace_ok2 pmx (init pmx 5) script_redo.
-Proof. vm_compute. repeat split; try discriminate; try (intros x H; repeat (destruct H as [<-|H]; [reflexivity|]); destruct H). Qed.
+Proof. apply trace_ok2_b_sound. vm_compute. reflexivity. Qed.
 
 (* ... and the delivered votes of script_redo are indeed not threshold-consistent *)
 Definition thx (s : N) (snd : N) (v : value) : thresh :=
@@ -703,11 +748,7 @@ Lemma redo_needs_consistency :
   ~ thresholds_consistent pmx (delivered script_redo).
 Proof.
   split; [exact pmx_pos|]. split; [exact script_redo_ok|].
-  assert (F : forall a, In a (filter (fun a => match a with AAttest _ _ _ _ => true | _ => false end)
-                                     (all_acts pmx (init pmx 5) script_redo)) ->
-                        In a (all_acts pmx (init pmx 5) script_redo)).
-  { intros a Ha. apply filter_In in Ha. exact (proj1 Ha). }
-  rewrite script_redo_acts in F.
-  split; [apply F; left; reflexivity|]. split; [apply F; right; left; reflexivity|].
-  split; [discriminate|exact script_redo_inconsistent].
+  split; [|split; [|split; [discriminate|exact script_redo_inconsistent]]].
+  - eapply proj1. apply filter_In. rewrite script_redo_acts. left. reflexivity.
+  - eapply proj1. apply filter_In. rewrite script_redo_acts. right. left. reflexivity.
 Qed.
